@@ -512,7 +512,7 @@ func RunFaultBlob(r *Run) {
 				t := alphabet[c.Intn("syntag", len(alphabet))]
 				tags[i] = t
 				word := func() {
-					v := []uint64{0, 1, 2, 3, uint64(n), uint64(slots + 1), uint64(slots + 2), ^uint64(0), uint64(-int64(slots))}[c.Intn("synval", 9)]
+					v := []uint64{0, 1, 2, 3, uint64(n), uint64(slots + 1), uint64(slots + 2), ^uint64(0), uint64(-int64(slots)), 1 << 55, 1<<55 | 1, 1<<55 | 5, ^uint64(0) - 3}[c.Intn("synval", 13)]
 					vals = binary.LittleEndian.AppendUint64(vals, v)
 				}
 				switch t {
